@@ -44,6 +44,9 @@ pub struct RtpsWriterProxy {
     nack_frag_count: Count,
     frag_buffer: Vec<DataFragSubmessage>,
     reliability: ReliabilityKind,
+    // Ranges (first, last) of irrelevant changes above the highest received change which can
+    // not be skipped yet because earlier changes are still missing
+    irrelevant_changes: Vec<(SequenceNumber, SequenceNumber)>,
 }
 
 impl RtpsWriterProxy {
@@ -69,6 +72,7 @@ impl RtpsWriterProxy {
             nack_frag_count: 0,
             frag_buffer: Vec::new(),
             reliability,
+            irrelevant_changes: Vec::new(),
         }
     }
 
@@ -172,9 +176,43 @@ impl RtpsWriterProxy {
         // FIND change FROM this.changes_from_writer SUCH-THAT
         // (change.sequenceNumber == a_seq_num);
         // change.status := RECEIVED; change.is_relevant := FALSE;
-        if a_seq_num > self.highest_received_change_sn {
-            self.highest_received_change_sn = a_seq_num;
+        self.irrelevant_change_range_set(a_seq_num, a_seq_num);
+    }
+
+    /// Mark all the changes in the range [first_seq_num, last_seq_num] as irrelevant. The changes become
+    /// available (are skipped) only once there is no missing change before them.
+    pub fn irrelevant_change_range_set(
+        &mut self,
+        first_seq_num: SequenceNumber,
+        last_seq_num: SequenceNumber,
+    ) {
+        const MAX_IRRELEVANT_RANGES: usize = 512;
+        let first_seq_num = max(first_seq_num, self.available_changes_max() + 1);
+        if first_seq_num > last_seq_num {
+            return;
         }
+        if self.irrelevant_changes.len() < MAX_IRRELEVANT_RANGES {
+            self.irrelevant_changes.push((first_seq_num, last_seq_num));
+        }
+        self.skip_irrelevant_changes();
+    }
+
+    fn skip_irrelevant_changes(&mut self) {
+        loop {
+            let next_seq_num = self.available_changes_max() + 1;
+            let Some(i) = self
+                .irrelevant_changes
+                .iter()
+                .position(|&(first, last)| first <= next_seq_num && last >= next_seq_num)
+            else {
+                break;
+            };
+            let (_, last) = self.irrelevant_changes.remove(i);
+            self.highest_received_change_sn = last;
+        }
+        let available_changes_max = self.available_changes_max();
+        self.irrelevant_changes
+            .retain(|&(_, last)| last > available_changes_max);
     }
 
     pub fn lost_changes_update(&mut self, first_available_seq_num: SequenceNumber) {
@@ -184,6 +222,7 @@ impl RtpsWriterProxy {
         // change.status := LOST;
         // }
         self.first_available_seq_num = first_available_seq_num;
+        self.skip_irrelevant_changes();
     }
 
     pub fn missing_changes(&self) -> impl Iterator<Item = SequenceNumber> {
@@ -200,7 +239,12 @@ impl RtpsWriterProxy {
             self.first_available_seq_num,
             self.highest_received_change_sn + 1,
         );
-        first_missing_change..=highest_number
+        (first_missing_change..=highest_number).filter(|sn| {
+            !self
+                .irrelevant_changes
+                .iter()
+                .any(|(first, last)| first <= sn && sn <= last)
+        })
     }
 
     pub fn missing_changes_update(&mut self, last_available_seq_num: SequenceNumber) {
@@ -219,6 +263,7 @@ impl RtpsWriterProxy {
         if a_seq_num > self.highest_received_change_sn {
             self.highest_received_change_sn = a_seq_num;
         }
+        self.skip_irrelevant_changes();
 
         // Make sure all the fragments that are older than the received sample are deleted
         // since they are not useful anymore
